@@ -30,6 +30,14 @@ CLAIMS = {
          "TLA+ spec Bloom (filter as a state machine over the set of set bits, hash function a parameter) model-checked with every hash function for no-false-negatives / monotonicity / unloaded-inert; BIP37 indices defined with MurmurHash3 on 16-bit halves (LibW32); TLC-enumerated operation histories and seeded random histories are executed on real filters and each step (bit delta, answers, state) judged by TLC trace validation",
          "exhaustive model checking of the abstract filter (all 729 hash functions, all histories) plus TLC trace validation of recorded histories against the bit-exact BIP37 definition",
          "NewFilter sizing only bounded; state observed through MsgFilterLoad()"),
+ "C11": ("DESIGN.md §4 C11",
+         "TLA+ spec PartialMerkle (canonical BIP37 build + independent extractor over a hash-combine parameter) model-checked for Extract(Build(n,S)) = (root,S) for every n <= 10 and all 2^n subsets on abstract terms; the three real proof builders and the extractor are run on real blocks (all subsets for small n, every n <= 65 structured, random large) and every message/index list/extraction judged by TLC trace validation",
+         "exhaustive small-scope model checking of the proof construction plus TLC trace validation of recorded proofs against the canonical definition",
+         "double-SHA256 facts logged by the harness; right-edge duplication rule checked in the specification (TreeOK)"),
+ "C12": ("DESIGN.md §4 C12",
+         "TLC runs the extraction algorithm as an explicit-stack machine over abstract hash terms on a LAZILY chosen message (Gen_PartialMerkle): invariants Sound (every reported hash is the leaf at the reported position under the returned root) and Agree (recursive definition = machine); every terminal equivalence class is replayed on the real extractor (tail filled with 0s and 1s) together with mutated honest proofs, and TLC decides each result with the recursive definition over logged SHA facts",
+         "model checking of the extraction design over the exhaustive small scope plus trace validation of every message class on the real code",
+         "double-SHA256 pair facts planned by an independent walk in the harness (missing fact = exit 2)"),
 }
 
 NOT_YET = "check not built yet in this round; see DESIGN.md for the planned TLA+ model"
